@@ -72,6 +72,45 @@ pub fn run(ctx: &'static Ctx) {
         }
     }
     ctx.engine("E4.scope-raw", json!({"pairs": n.load(Ordering::Relaxed), "paths": paths, "body_sizes": "0..=4200 and around 2^20, plus every child list of length <=3 over the fillers"}));
+    // large bodies x spare capacity of the caller's vector (two hidden arguments at once: the size decides the path, the
+    // capacity whether an in-place variant of it is taken): every body size 0..=70 000 (quick: 0..=12 000 and around 16 K,
+    // 32 K, 64 K) and some up to 2^20, with exact capacity and with 1, 7, 64 and 4096 spare bytes
+    {
+        use acpi_tables::aml::Scope;
+        let sizes: Vec<usize> = if quick { (0..=12_000usize).chain(16_370..=16_400).chain(32_750..=32_790).chain(65_500..=65_560).collect() } else { (0..=70_000usize).chain([131_072, 262_143, 262_144, 1_000_000, (1 << 20) - 8, (1 << 20) - 7, (1 << 20) - 6]).collect() };
+        let big = AtomicU64::new(0);
+        sizes.par_iter().for_each(|size| {
+            let body: Vec<u8> = (0..*size).map(|i| (i * 7 + 1) as u8).collect();
+            let child = crate::amlobj::Bytes(body.clone());
+            for (pi, p) in ["_SB_", "\\_SB_.PCI0.LNKA"].into_iter().enumerate() {
+                if pi == 1 && size % 3 != 0 {
+                    continue;
+                }
+                let want = match catch(|| crate::util::ser(&Scope::new(p.into(), vec![&child as &dyn acpi_tables::Aml]))) {
+                    Ok(w) => w,
+                    Err(_) => continue,
+                };
+                for extra in [0usize, 1, 7, 64, 4096] {
+                    let mut v = Vec::with_capacity(size + extra);
+                    v.extend_from_slice(&body);
+                    big.fetch_add(1, Ordering::Relaxed);
+                    match catch(|| Scope::raw(p.into(), v)) {
+                        Ok(got) if got == want => {}
+                        other => {
+                            ctx.violation_sized(
+                                "alt:scope-raw:capacity",
+                                *size as u64,
+                                || format!("Scope::raw({}, body of {} bytes in a vector with {} spare bytes) differs from Scope::new: {}", p, size, extra, match &other { Ok(g) => format!("{} vs {} bytes, heads {} | {}", g.len(), want.len(), hex(&g[..g.len().min(12)]), hex(&want[..want.len().min(12)])), Err(m) => format!("panicked: {}", m) }),
+                                || json!({"family":"alt-paths","what":format!("Scope::raw {} body {} spare {}", p, size, extra)}),
+                            );
+                        }
+                    }
+                }
+            }
+        });
+        ctx.tr(big.load(Ordering::Relaxed));
+        ctx.engine("E3.scope-raw-capacity", json!({"objects": big.load(Ordering::Relaxed), "sizes": sizes.len(), "spare": [0, 1, 7, 64, 4096]}));
+    }
 
     // ---- PackageBuilder vs Package
     let m = AtomicU64::new(0);
